@@ -234,12 +234,46 @@ def RefsFaithfulP (D : Defs) : List (String × FieldDecl) → Prop
 termination_by structural ps => ps
 end
 
+mutual
+/-- every class reference inside the declaration resolves in the pointer table `D` (weaker than
+    `RefsFaithful`: it holds of the returned definitions for EVERY declaration, also when two
+    classes share a `__name__` — `Lemmas/SchemaDefs.lean`) -/
+def RefsResolve (D : Defs) : FieldDecl → Prop
+  | .seqOf _ f _ => RefsResolve D f
+  | .seqPos _ fs _ _ => RefsResolveL D fs
+  | .setOf _ f _ => RefsResolve D f
+  | .tupleOf f _ => RefsResolve D f
+  | .tuplePos fs _ => RefsResolveL D fs
+  | .mapOf _ v _ => RefsResolve D v
+  | .struct c fields _ =>
+    (c.inline = true ∨ (lookup ("#/definitions/" ++ c.name) D).isSome = true) ∧ RefsResolveP D fields
+  | .anyOf fs => RefsResolveL D fs
+  | .oneOf fs => RefsResolveL D fs
+  | .allOf fs => RefsResolveL D fs
+  | .notF fs => RefsResolveL D fs
+  | _ => True
+termination_by structural f => f
+def RefsResolveL (D : Defs) : List FieldDecl → Prop
+  | [] => True
+  | f :: fs => RefsResolve D f ∧ RefsResolveL D fs
+termination_by structural fs => fs
+def RefsResolveP (D : Defs) : List (String × FieldDecl) → Prop
+  | [] => True
+  | (_, f) :: ps => RefsResolve D f ∧ RefsResolveP D ps
+termination_by structural ps => ps
+end
+
 /-- the pointer table of the dialect-fixed definitions `structure_to_schema(cls, {})` returns -/
 def fixedPtrDefs (cls : FieldDecl) : Defs := ptrDefs (fixDefs (toSchema cls).2)
 
 /-- `RefsFaithful` for the fields of the top-level class -/
 def ClassRefsFaithful (D : Defs) : FieldDecl → Prop
   | .struct _ fields _ => RefsFaithfulP D fields
+  | _ => True
+
+/-- `RefsResolve` for the fields of the top-level class -/
+def ClassRefsResolve (D : Defs) : FieldDecl → Prop
+  | .struct _ fields _ => RefsResolveP D fields
   | _ => True
 
 /-! ### structural equality on JSON values (to make `RefsFaithful` checkable by evaluation) -/
@@ -304,11 +338,16 @@ def classRefsFaithfulB (D : Defs) : FieldDecl → Bool
 
 /-! ### well-formedness fragment -/
 
+/-- every default is written into the schema as a JSON value (an enum member by its name): excluded is
+    exactly the finding `ill-formed:default:not-json` (a set, a tuple, a list of enum members, …) -/
+def defaultsJson (defaults : List (String × PyVal)) : Bool :=
+  defaults.all (fun d => jsonOnly (defaultJ d.2))
+
 mutual
 /-- declarations whose emitted schema is a well-formed draft-4 document after the dialect fix.
     Excluded (each a finding or a raise): classes without any required or defaulted field
-    (`required: []`), `multiplesOf = 0`, empty positional `items`, empty / duplicated enums, raising kinds; and, corresponded
-    only: classes with defaults. -/
+    (`required: []`), `multiplesOf = 0`, empty positional `items`, empty / duplicated enums, raising kinds,
+    defaults that are not JSON values. -/
 def wfFragF : FieldDecl → Bool
   | .number o => numOptsOk o
   | .integer o => numOptsOk o
@@ -328,7 +367,7 @@ def wfFragF : FieldDecl → Bool
   | .mapOf k v _ => isStringField k && wfFragF v
   | .struct c fields defaults =>
     !(schemaRequired c defaults).isEmpty && nodupS (schemaRequired c defaults)
-    && defaults.isEmpty && wfFragP fields
+    && defaultsJson defaults && wfFragP fields
   | .anyOf fs => if optShape fs then wfFragOpt fs else !fs.isEmpty && wfFragL fs
   | .oneOf fs => !fs.isEmpty && wfFragL fs
   | .allOf fs => !fs.isEmpty && wfFragL fs
@@ -353,9 +392,8 @@ end
 /-- the top-level class may be a field wrapper (then its schema is the schema of its only field) -/
 def inWfFragment (cls : FieldDecl) : Bool :=
   match cls with
-  | .struct c fields defaults =>
-    !c.inline && (if collapses c (fields.map (·.1)) then defaults.isEmpty && wfFragP fields
-                  else wfFragF cls)
+  | .struct c fields _ =>
+    !c.inline && (if collapses c (fields.map (·.1)) then wfFragP fields else wfFragF cls)
   | _ => false
 
 /-! ### exact sub-fragment -/
